@@ -460,6 +460,16 @@ def gen_object(rng, shape, classes=None, base=0, nderiv=None, isint=None):
     mrep, mask = gen_mask(rng, shape)
     d = {'cls': cls, 'item': list(item), 'shape': list(shape), 'mrep': mrep, 'mask': mask,
          'base': base, 'int': (rng.random() < 0.4) if isint is None else isint, 'derivs': {}}
+    if mrep == 'arr' and shape and shape[0] >= 1 and rng.random() < 0.25:
+        # the mask array is not writable while the object is (a broadcast view given to the constructor, or an array
+        # shared with a read-only object): seeded change C10-I reset the derivatives' masks on that path
+        if rng.random() < 0.6:
+            rest = int(np.prod(shape[1:]))
+            row = [rng.random() < 0.4 for _ in range(rest)]
+            d['mask'] = row * shape[0]
+            d['mlayout'] = 'bview'
+        else:
+            d['mlayout'] = 'ro'
     if cls != 'Boolean':
         if nderiv is None:
             nderiv = rng.choice([0, 0, 1, 2])
@@ -479,12 +489,17 @@ def gen_object(rng, shape, classes=None, base=0, nderiv=None, isint=None):
     return d
 
 
-def _mask_obj(rep, flat, shape):
+def _mask_obj(rep, flat, shape, layout=None):
     if rep == 'F':
         return False
     if rep == 'T':
         return True
-    return np.array(flat, dtype=bool).reshape(shape)
+    m = np.array(flat, dtype=bool).reshape(shape)
+    if layout == 'bview' and len(shape) >= 1 and m.size and np.all(m == m[:1]):
+        return np.broadcast_to(m[:1], shape)          # a read-only broadcast view, as constructors accept it
+    if layout == 'ro':
+        m.flags.writeable = False                     # an array shared with an object that was made read-only
+    return m
 
 
 def build_object(d, P):
@@ -496,7 +511,7 @@ def build_object(d, P):
         return cls(vals if shape else bool(vals), _mask_obj(d['mrep'], d['mask'], shape))
     dt = int if (d['int'] and d['cls'] in ('Scalar', 'Pair', 'Vector')) else float
     vals = (d['base'] + np.arange(n * isz)).astype(dt).reshape(shape + item)
-    obj = cls(vals if (shape + item) else vals.item(), _mask_obj(d['mrep'], d['mask'], shape))
+    obj = cls(vals if (shape + item) else vals.item(), _mask_obj(d['mrep'], d['mask'], shape, d.get('mlayout')))
     dcls = getattr(P, d.get('dcls') or d['cls'])       # class of the derivative objects (may differ from the parent's)
     for k, key in enumerate(sorted(d['derivs'])):
         dd = d['derivs'][key]
